@@ -5,6 +5,7 @@
 (*   present : decoded = v (structurally) and accepted iff Valid(schema, v)              *)
 (*   absent  : required => reported as missing (ErrInvalidRequired); optional => accepted*)
 (*   garbage : rejected                                                                  *)
+(*   empty   : accepted iff allowEmptyValue; never reported as missing                    *)
 EXTENDS ParamCodec, FindingsC05, Json, CSV
 
 Trace == ndJsonDeserialize("trace.ndjson")
@@ -33,6 +34,10 @@ Failed(line) ==
            (IF c.required THEN (IF line.verdict # "required" THEN {"absent_required_reported_missing"} ELSE {})
             ELSE (IF line.verdict # "ok" THEN {"absent_optional_accepted"} ELSE {}))
            \cup (IF line.dec.err = "ok" /\ line.dec.found THEN {"absent_not_found"} ELSE {})
+      [] c.presence = "empty" ->       \* an empty-valued parameter passes exactly when the parameter allows empty values; it is never "missing"
+           (IF c.allowEmpty THEN (IF line.verdict # "ok" THEN {"empty_value_allowed_accepted"} ELSE {})
+            ELSE (IF ~Rejected(line.verdict) THEN {"empty_value_rejected"} ELSE {}))
+           \cup (IF line.verdict = "required" THEN {"empty_is_not_missing"} ELSE {})
       [] c.presence = "garbage" ->
            (IF ~Rejected(line.verdict) THEN {"garbage_rejected"} ELSE {}))
 
